@@ -66,6 +66,38 @@ CHECKS["C14"] = dict(
          "DSL.instantiate_polymorphic_types on generated syntaxes x bounds 0-6, after one and two calls, as sorted lists, under several hash seeds."),
    note=TB + "Python sets are modelled as duplicate-free lists under structural equality (valid for consistent annotations; hash collisions ignored); list 'in'/'remove' are modelled by the Python type equality ty_eqb_py.  'Base types' are those collected by decompose_type (types named only inside annotations are excluded).  The bound applies to the substituted type.  Sums with fewer than 2 alternatives, inconsistent annotations and variables inside annotations are outside the theorems' hypotheses; the generator stays inside them and the harness asserts the model's wf flag.",
    design="5/C14")
+ENUM_NOTE = TB + ("These three properties are PARTIAL: what is proved is the decision procedure that is run on the implementation's output (sound and complete "
+   "w.r.t. the declarative specification) and the language/probability layer it relies on (Gram/Det.v); there is no refinement proof from the Python "
+   "queue mechanics (heaps, banks, bucket queues) to those specifications, so the property is decided per run, on the generated grammars, not for all "
+   "inputs.  The language list L handed to the checker is the model's enumeration of the implementation's own rule table with fuel = bound + 2 "
+   "(the harness asserts that one more unit of fuel adds nothing).  Unambiguous-grammar variants (hs_u, hs_bucket_u) are not driven yet. ")
+CHECKS["C02"] = dict(
+   technique="Coq-verified result checker (sound and complete) run on every enumerator's output + model language of the implementation's rule table",
+   text=("PARTIAL.  Theorems (Props/C02.v, closed): for any duplicate-free list L of exactly the members, check_enum member |L| out = true <-> "
+         "Permutation out L <-> (NoDup out and In p out <-> member p) (C02_checker_sound_complete, C02_checker_exactly_once).  Each run builds grammars "
+         "and weights with the real code, runs heap / bucket / bee / beap / constant-delay search to exhaustion under a time limit, and hands the "
+         "grammar's own rule table and the full output to the extracted checker; non-termination = time limit exceeded."),
+   note=ENUM_NOTE + "Known findings: heap/bucket search are incomplete on size-bounded (tree-traversing) grammars; bee search with non-uniform weights blows up exponentially (treated as practical non-termination, prefix still checked).",
+   design="5/C02")
+CHECKS["C03"] = dict(
+   technique="Coq-verified order checkers (chain/StronglySorted, slack-sorted, lexicographic buckets) run on every enumerator's output with exact rational probabilities",
+   text=("PARTIAL.  Theorems (Props/C03.v, closed): the consecutive-pair checker on exact probabilities decides StronglySorted non-increasing "
+         "(C03_sorted_probabilities, C03_tolerance_zero); the running-maximum checker decides 'no cost more than slack below an earlier one' "
+         "(C03_cost_slack_sorted; slack 0 for bee search, 2 integer units for constant delay); the bucket comparison is a total preorder on equal-size "
+         "tuples and its chain check decides sortedness (C03_bucket_*, C03_sorted_buckets); in a sorted sequence every element with a strictly "
+         "larger key than an already produced one has been produced (C03_prefix_complete, the 'consequently' clause).  Each run computes every "
+         "output program's exact probability / integer cost / bucket tuple with the model from the grammar's own weights and applies the checker."),
+   note=ENUM_NOTE + "Float rounding inside the enumerators is allowed a relative 2^-40.  The integer rule costs of bee/constant-delay search are validated against -ln(p)*scale within 1.  Recursive (infinite) grammars are not driven by the correspondence; C03_prefix_complete covers them as a statement about sorted sequences only.",
+   design="5/C03")
+CHECKS["C12"] = dict(
+   technique="Coq-verified checkers for filtered enumerations and merge histories run on every enumerator's output",
+   text=("PARTIAL.  Theorems (Props/C12.v, closed): check_filtered decides the sandwich specification (nothing twice, nothing rejected or outside "
+         "the language, every program all of whose sub-programs are accepted is present) and, for a sub-program-closed filter, equals 'permutation of "
+         "the accepted part of the language' (C12_checker_filter, C12_closed_filter); check_merged decides the merge-history specification "
+         "(C12_checker_merge).  Each run installs rejected-set filters or merge scripts on the five deterministic-grammar enumerators and checks "
+         "their output with the extracted checkers."),
+   note=ENUM_NOTE + "Filters are finite rejected sets.  Known findings: bee search never returns once a filter/merge removes a program; heap search yields programs containing a merged program that were already queued; constant-delay search loses unrelated programs after a merge.  Their classifiers are shape-based (no faithful model of the enumerators exists), so another defect with the same symptom on the same enumerator would be attributed to them.",
+   design="5/C12")
 NOT_YET = {}
 def main():
     props = [json.loads(l) for l in open(os.path.join(V, "properties.jsonl"))]
